@@ -8,6 +8,9 @@
        seq  global sequence number (order of the callback under the harness's log mutex)
        th   thread: worker id 0.. for pool workers (from the thread's name), -1 caller,
             -2 recovery thread, -9 harness driver
+       g    generation: for worker / recovery threads the start() call that created their task channel
+            (the harness learns it from the Pool_Chan / Worker_Spawned / Rec_Chan points, which report
+            the channel's identity), for the caller the number of start() calls so far
        ev   point name;  a, b  the point's two arguments;
        p    (Reset only) the tasks whose body panics
    A file holds several runs, each  Reset ... (Quiesced | C_Hang).
@@ -40,22 +43,27 @@ Adv      == l' = l + 1 /\ UNCHANGED <<dh, sending>>
 Same     == UNCHANGED vars
 SetOf(s) == {s[i] : i \in 1 .. Len(s)}
 IsW(x)   == x \in Workers
-ByW      == IsW(E.a) /\ E.th = E.a          \* a worker's own point: reported id = thread name
+IsG      == E.g \in Gens
+ByW      == IsG /\ IsW(E.a) /\ E.th = E.a          \* a worker's own point: reported id = thread name
+CALLER   == 0 - 1
+RECOVERY == 0 - 2
 
 ResetTo(p) ==
-  /\ cpc' = "new" /\ nsub' = 0 /\ recAttached' = FALSE
-  /\ q' = <<>> /\ txAlive' = FALSE /\ rxLock' = NOBODY /\ poisoned' = FALSE
-  /\ wpc' = [w \in Workers |-> "absent"] /\ wtask' = [w \in Workers |-> 0]
-  /\ inc' = [w \in Workers |-> 0]
-  /\ recq' = <<>> /\ rpc' = "absent" /\ rw' = NOBODY
-  /\ handles' = [w \in Workers |-> FALSE]
+  /\ cpc' = "new" /\ nsub' = 0 /\ cur' = 0 /\ recAttached' = FALSE
+  /\ q' = [g \in Gens |-> <<>>] /\ txAlive' = [g \in Gens |-> FALSE]
+  /\ rxLock' = [g \in Gens |-> NOBODY] /\ poisoned' = [g \in Gens |-> FALSE]
+  /\ wpc' = [g \in Gens |-> [w \in Workers |-> "absent"]]
+  /\ wtask' = [g \in Gens |-> [w \in Workers |-> 0]]
+  /\ inc' = [g \in Gens |-> [w \in Workers |-> 0]]
+  /\ recq' = [g \in Gens |-> <<>>] /\ rpc' = [g \in Gens |-> "absent"] /\ rw' = [g \in Gens |-> NOBODY]
+  /\ handles' = [g \in Gens |-> [w \in Workers |-> 0]]
   /\ pan' = p
   /\ ran' = [t \in Tasks |-> 0] /\ done' = [t \in Tasks |-> 0]
 
 TInit == l = 1 /\ dh = 0 /\ sending = {} /\ InitWith({}) /\ TLCSet(1, 1)
 
-\* the harness's verdict that a run is over: caller returned from drop, no worker thread alive
-\* (counted in /proc), every submitted task entered once and, unless it panics, returned once
+\* the harness's verdict that a run is over: caller returned from drop, no worker thread of any generation
+\* alive (counted in /proc), every submitted task entered once and, unless it panics, returned once
 RunOver == Quiescent /\ \A t \in Tasks : t <= nsub => SubmittedOK(t)
 
 Ev_Reset ==
@@ -64,62 +72,63 @@ Ev_Reset ==
   /\ E.a \in 0 .. N /\ E.b \in 0 .. MaxTasks /\ SetOf(E.p) \subseteq Tasks
   /\ ResetTo(SetOf(E.p)) /\ l' = l + 1 /\ dh' = 0 /\ sending' = {}
 
+\* the caller's events carry g = number of start() calls so far (the harness counts the Pool_Chan points)
 Ev_Caller ==
-  \/ Is("Pool_Start") /\ E.th = 0 - 1 /\ E.a \in 1 .. N /\ Pool_Start(E.a) /\ Adv
-  \/ Is("Pool_Execute") /\ E.th = 0 - 1 /\ E.a \in Tasks /\ Pool_Execute(E.a) /\ Adv
-  \/ Is("Pool_Stop") /\ E.th = 0 - 1 /\ Pool_Stop /\ Adv
-  \/ Is("Pool_DropBegin") /\ E.th = 0 - 1 /\ ((E.a = 1) <=> recAttached) /\ Pool_DropBegin /\ Adv
+  \/ Is("Pool_Start") /\ E.th = CALLER /\ E.a \in 1 .. N /\ Pool_Start(E.a) /\ l' = l + 1 /\ dh' = 0 /\ UNCHANGED sending
+  \/ Is("Pool_Execute") /\ E.th = CALLER /\ E.a \in Tasks /\ E.g = cur /\ Pool_Execute(E.a) /\ Adv
+  \/ Is("Pool_Stop") /\ E.th = CALLER /\ E.g = cur /\ Pool_Stop /\ Adv
+  \/ Is("Pool_DropBegin") /\ E.th = CALLER /\ E.g = cur /\ ((E.a = 1) <=> recAttached) /\ Pool_DropBegin /\ Adv
   \* the loop body of Drop runs once per entry of `threads`, all under one guard: the first
   \* point is the critical section (Pool_DropHandles), the others mark no further change
-  \/ /\ Is("Pool_DropHandle") /\ E.th = 0 - 1 /\ IsW(E.a) /\ wpc[E.a] # "absent" /\ E.a = dh
+  \/ /\ Is("Pool_DropHandle") /\ E.th = CALLER /\ cur >= 1 /\ IsW(E.a) /\ wpc[cur][E.a] # "absent" /\ E.a = dh
      /\ IF E.a = 0 THEN Pool_DropHandles ELSE cpc = "dropped" /\ Same
      /\ l' = l + 1 /\ dh' = dh + 1 /\ UNCHANGED sending
-  \/ Is("Pool_DropEnd") /\ E.th = 0 - 1 /\ Pool_DropEnd /\ Adv
+  \/ Is("Pool_DropEnd") /\ E.th = CALLER /\ Pool_DropEnd /\ Adv
 
 Ev_Worker ==
-  \/ Is("Worker_Loop") /\ ByW /\ wpc[E.a] = "idle" /\ Same /\ Adv
-  \/ Is("Worker_Lock") /\ ByW /\ ((E.b = 1) <=> poisoned) /\ Worker_Lock(E.a) /\ Adv
+  \/ Is("Worker_Loop") /\ ByW /\ wpc[E.g][E.a] = "idle" /\ Same /\ Adv
+  \/ Is("Worker_Lock") /\ ByW /\ ((E.b = 1) <=> poisoned[E.g]) /\ Worker_Lock(E.g, E.a) /\ Adv
   \/ /\ Is("Worker_Recv") /\ ByW
-     /\ IF E.b = 2 THEN Worker_RecvDisc(E.a)
-        ELSE /\ q # <<>>
-             /\ IF Head(q) = SHUTDOWN THEN E.b = 1 ELSE E.b = 0
-             /\ Worker_RecvMsg(E.a)
+     /\ IF E.b = 2 THEN Worker_RecvDisc(E.g, E.a)
+        ELSE /\ q[E.g] # <<>>
+             /\ IF Head(q[E.g]) = SHUTDOWN THEN E.b = 1 ELSE E.b = 0
+             /\ Worker_RecvMsg(E.g, E.a)
      /\ Adv
-  \/ Is("Task_Start") /\ IsW(E.th) /\ E.a \in Tasks /\ wtask[E.th] = E.a /\ Worker_Run(E.th) /\ Adv
-  \/ Is("Task_End") /\ IsW(E.th) /\ E.a \in Tasks /\ wtask[E.th] = E.a /\ Worker_Finish(E.th) /\ Adv
+  \/ Is("Task_Start") /\ IsG /\ IsW(E.th) /\ E.a \in Tasks /\ wtask[E.g][E.th] = E.a /\ Worker_Run(E.g, E.th) /\ Adv
+  \/ Is("Task_End") /\ IsG /\ IsW(E.th) /\ E.a \in Tasks /\ wtask[E.g][E.th] = E.a /\ Worker_Finish(E.g, E.th) /\ Adv
   \* PanicMarker::drop: Marker_Send is reported before, Marker_Sent after `send(id)`.  The send itself
   \* (= Worker_Panic, which appends to the recovery channel) is a silent step in between, so that
   \* two overlapping sends may take effect in either order.
-  \/ /\ Is("Marker_Send") /\ ByW /\ wpc[E.a] = "run" /\ wtask[E.a] \in pan /\ E.a \notin sending
-     /\ sending' = sending \cup {E.a} /\ Same /\ l' = l + 1 /\ UNCHANGED dh
-  \/ Is("Marker_Sent") /\ ByW /\ E.a \notin sending /\ Same /\ Adv
-  \/ Is("Worker_Exit") /\ ByW /\ wpc[E.a] = "exited" /\ Same /\ Adv
+  \/ /\ Is("Marker_Send") /\ ByW /\ wpc[E.g][E.a] = "run" /\ wtask[E.g][E.a] \in pan /\ <<E.g, E.a>> \notin sending
+     /\ sending' = sending \cup {<<E.g, E.a>>} /\ Same /\ l' = l + 1 /\ UNCHANGED dh
+  \/ Is("Marker_Sent") /\ ByW /\ <<E.g, E.a>> \notin sending /\ Same /\ Adv
+  \/ Is("Worker_Exit") /\ ByW /\ wpc[E.g][E.a] = "exited" /\ Same /\ Adv
 
 Ev_Recovery ==
-  \/ Is("Rec_Wake") /\ E.th = 0 - 2 /\ recq # <<>> /\ Head(recq) = E.a /\ Rec_Wake /\ Adv
-  \/ Is("Rec_Recv") /\ E.th = 0 - 2 /\ rpc = "lock" /\ rw = E.a /\ Rec_Recv /\ Adv
-  \/ Is("Rec_Joined") /\ E.th = 0 - 2 /\ rpc = "join" /\ rw = E.a /\ ((E.b = 1) <=> handles[rw])
-       /\ Rec_Join /\ Adv
-  \/ Is("Rec_Respawn") /\ E.th = 0 - 2 /\ rpc = "respawn" /\ rw = E.a /\ Rec_Respawn /\ Adv
+  \/ Is("Rec_Wake") /\ IsG /\ E.th = RECOVERY /\ recq[E.g] # <<>> /\ Head(recq[E.g]) = E.a /\ Rec_Wake(E.g) /\ Adv
+  \/ Is("Rec_Recv") /\ IsG /\ E.th = RECOVERY /\ rpc[E.g] = "lock" /\ rw[E.g] = E.a /\ Rec_Recv(E.g) /\ Adv
+  \/ Is("Rec_Joined") /\ IsG /\ E.th = RECOVERY /\ rpc[E.g] = "join" /\ rw[E.g] = E.a
+       /\ ((E.b = 1) <=> (handles[Tbl(E.g)][E.a] # 0)) /\ Rec_Join(E.g) /\ Adv
+  \/ Is("Rec_Respawn") /\ IsG /\ E.th = RECOVERY /\ rpc[E.g] = "respawn" /\ rw[E.g] = E.a /\ Rec_Respawn(E.g) /\ Adv
 
 Ev_Harness ==
-  \* Humphrey's own monitor stream, read by the driver after the run: b = number of ThreadRestarted
-  \* events naming worker a.  Must equal the number of respawns of that id in the model.
-  \/ Is("Mon_Restarted") /\ IsW(E.a) /\ inc[E.a] = E.b /\ Same /\ Adv
+  \* Humphrey's own monitor stream, read by the driver after a run without restart: b = number of
+  \* ThreadRestarted events naming worker a.  Must equal the number of respawns of that id in the model.
+  \/ Is("Mon_Restarted") /\ IsW(E.a) /\ cur = 1 /\ inc[1][E.a] = E.b /\ Same /\ Adv
   \/ Is("Quiesced") /\ RunOver /\ sending = {} /\ Same /\ Adv
   \* a = 1: drop() has not returned after the escalating waits.  Explicable only where the model's
   \* caller is blocked for ever, i.e. under DropJoinsRecovery.
   \/ Is("C_Hang") /\ E.a = 1 /\ cpc = "dropping" /\ ~DropPassesRecovery /\ Same /\ Adv
 
 Silent ==
-  \/ \E w \in sending :
+  \/ \E p \in sending :
        /\ Is("Marker_Sent") \/ Is("Rec_Wake")
-       /\ Worker_Panic(w) /\ sending' = sending \ {w} /\ UNCHANGED <<l, dh>>
-  \/ \E w \in Workers :
-       /\ wpc[w] = "unwinding"
-       /\ Is("Rec_Joined") /\ E.a = w /\ E.b = 1
-       /\ Worker_Die(w) /\ UNCHANGED <<l, dh, sending>>
-  \/ /\ Is("Pool_DropEnd") /\ cpc = "dropping" /\ Started = {}
+       /\ Worker_Panic(p[1], p[2]) /\ sending' = sending \ {p} /\ UNCHANGED <<l, dh>>
+  \/ \E g \in Gens, w \in Workers :
+       /\ wpc[g][w] = "unwinding"
+       /\ Is("Rec_Joined") /\ E.g = g /\ E.a = w /\ E.b = 1
+       /\ Worker_Die(g, w) /\ UNCHANGED <<l, dh, sending>>
+  \/ /\ Is("Pool_DropEnd") /\ cpc = "dropping" /\ cur = 0
      /\ Pool_DropHandles /\ UNCHANGED <<l, dh, sending>>
 
 TNext == Ev_Reset \/ Ev_Caller \/ Ev_Worker \/ Ev_Recovery \/ Ev_Harness \/ Silent
@@ -138,5 +147,5 @@ Accepted ==
 AtEnd == (l = Len(Rec) + 1) =>
    PrintT(ToJson([last_state |-> [cpc |-> cpc, nsub |-> nsub, att |-> recAttached, q |-> q, tx |-> txAlive,
                                    lk |-> rxLock, wpc |-> wpc, wt |-> wtask, rq |-> recq, rpc |-> rpc, rw |-> rw,
-                                   h |-> handles]]))
+                                   h |-> handles, cur |-> cur]]))
 =============================================================================
